@@ -155,7 +155,13 @@ func (c18) Generate(seed uint64, tier string, index int) any {
 	if tier == "thorough" {
 		to.ByteBudget *= 3
 	}
-	sc := genSync(g, arr, []string{"-rt"}, to, false)
+	topts := []string{"-rt"}
+	if g.R.Intn(3) == 0 {
+		// output options: whatever is printed (and whatever lock guards the
+		// printing) must not couple the two directions of the transport
+		topts = append(topts, [][]string{{"-v"}, {"--progress"}, {"-vv", "--progress"}, {"--info=NAME"}, {"-v", "--info=FLIST2"}, {"--debug=RECV,SEND"}}[g.R.Intn(6)]...)
+	}
+	sc := genSync(g, arr, topts, to, false)
 	sc.ModuleFS = false
 	sc.Sources = []SrcArg{{Path: "", Slash: true}}
 	// the prior destination must belong to THIS source selection: genSync drew
